@@ -185,6 +185,11 @@ def mon_C07(spec, st, t, seen):
         storage().exists(key)
     except BaseException as e:  # noqa
         return ('key-rejected', f'LocalStorage rejects key {key!r}: {e!r}')
+    for ty in (U.Vuni1, U.Vuni2):          # module-level types whose names are not ASCII
+        try:
+            storage().exists(ty(x=t.x).cache_key)
+        except BaseException as e:  # noqa
+            return ('key-rejected', f'LocalStorage rejects the key of a module-level task type named {ty.__qualname__!r}: {e!r}')
     ident = V.g_value_py(t)
     prev = seen.get(key)
     if prev is not None and prev[0] != ident:
